@@ -76,8 +76,11 @@ def exception_cover(ctx, rule='A9'):
     ctx.ob(rule, fkey(cm, rule, 'handler-set'), need <= set(caught), cm.where,
            f'the candidate loop tolerates {sorted(need)}', f'caught: {caught}')
     # dist-corr wrapper handles Timeout and Memory
-    t2 = [t for t in try_statements(cm) if any(call_name(c) == 'run_timeout' and '_get_dist_corr' in norm(c)
-                                               for b in t.body for c in ast.walk(b) if isinstance(c, ast.Call))]
+    # ... in the candidate loop itself or in a method of the selector it calls
+    scope = [cm] + list(ctx.prog.cls(SEL).methods.values())
+    t2 = [t for f_ in scope for t in try_statements(f_)
+          if any(call_name(c) == 'run_timeout' and '_get_dist_corr' in norm(c)
+                 for b in t.body for c in ast.walk(b) if isinstance(c, ast.Call))]
     ok = bool(t2) and {'TimeoutError', 'MemoryError'} <= {n for h in t2[0].handlers for n in handler_type_names(h)}
     ctx.ob(rule, fkey(cm, rule, 'dist-corr-handlers'), ok, cm.where,
            'the distance-correlation measurement tolerates TimeoutError and MemoryError (the score stays NaN)', '')
